@@ -26,6 +26,11 @@ def result_of(line):
     return line if i < 0 else line[:i]
 
 
+def core_clone_probe(c, digest):
+    from .. import core
+    return core.clone_probe(c, digest)
+
+
 class CacheProp(SeqProp):
     kind = "lru"
     anchors = ["windpyutils/structures/caches.py", "windpyutils/structures/lists.py"]
@@ -161,6 +166,9 @@ class CacheProp(SeqProp):
         # another cache of the same class is alive and in use all the time: caches are independent of each other
         other = self.make(2)
         other_ref = []
+        # a shallow copy made half-way stays alive: whatever happens to the cache afterwards, the copy is either still the
+        # same cache (an alias) or what the cache was when it was copied — never a third, inconsistent thing
+        shallow = [None, None]
         for op in case.ops:
             w = op.split()
             n = len(out)
@@ -174,9 +182,11 @@ class CacheProp(SeqProp):
                 if isinstance(r, tuple) and r[0] == "new":
                     c = r[1]
                     r = "ok"
+                    shallow[0] = None  # the copy belonged to the cache that was just replaced
             except Timeout:
                 out.append("timeout")
                 c = self.make(1)  # the structure may be mid-operation; continue on a fresh one
+                shallow[0] = None
                 continue
             except BaseException as e:  # noqa
                 if isinstance(e, (KeyboardInterrupt, SystemExit)):
@@ -189,6 +199,23 @@ class CacheProp(SeqProp):
                 mix = None
                 if n % 3 == 2:
                     mix = self.absent_probe(c)
+                if n == 3:
+                    try:
+                        import copy as _copy
+                        shallow[0], shallow[1] = _copy.copy(c), self.digest(c)
+                    except Exception:  # noqa: not every object can be copied
+                        shallow[0] = None
+                elif n > 3 and n % 2 == 0 and shallow[0] is not None and mix is None:
+                    try:
+                        ds = self.digest(shallow[0])
+                        if ds not in (self.digest(c), shallow[1]) or not ds.endswith("A:1"):
+                            mix = (f"a shallow copy taken earlier now presents {ds[:200]!r}: neither the cache as it is "
+                                   f"({self.digest(c)[:200]!r}) nor the cache as it was copied ({shallow[1][:200]!r})")
+                    except Exception as e:  # noqa
+                        mix = f"a shallow copy taken earlier cannot be read any more: {err_name(e)}"
+                if mix is None and n in (3, 12):
+                    # copies (shallow, deep, pickled) are made, read and dropped: the cache itself is left as it was
+                    mix = core_clone_probe(c, self.digest)
                 if mix is None and n % 4 == 3:
                     try:
                         if other_ref is None or len(other) > 2 or not set(other.keys()) <= {"b0", "b1", "b2"} or \
